@@ -97,8 +97,8 @@ class KnapsackH(Harness):
         if self.w is None:
             w = ctx.fresh_arr(tag + ".weights", (n,), F32)
             v = ctx.fresh_arr(tag + ".values", (n,), F32)
-            pre += [S.fp_in(x, 0.0, 1.0) for x in list(w.a.reshape(-1)) + list(v.a.reshape(-1))]
-            pre.append(S.fp_in(rb.a[()], 0.0, float(self.B)))
+            pre += [S.fp_in(x, 0.0, 1.0, tiny=2.0 ** -24) for x in list(w.a.reshape(-1)) + list(v.a.reshape(-1))]
+            pre.append(S.fp_in(rb.a[()], 0.0, float(self.B), tiny=2.0 ** -24))
             # declared domain: zero or normal numbers.  XLA:CPU flushes subnormal operands/results to zero while the
             # encoding is IEEE-754 with gradual underflow (a subnormal weight is 'free' on the real code); subnormals
             # cannot come out of jax.random.uniform (its outputs are multiples of 2^-23).
